@@ -1409,6 +1409,15 @@ pub mod jub {
     fn arr(b: &[u8]) -> [u8; 32] {
         b.try_into().unwrap()
     }
+    /// subgroup-typed view of a point the reference places in the subgroup; `None` (and the
+    /// subgroup-typed operations are skipped) if the library disagrees — that disagreement is
+    /// reported by the `into_subgroup` / `is_torsion_free` comparisons
+    fn to_sub(expected_in_subgroup: bool, p: Ext) -> Option<Sub> {
+        if !expected_in_subgroup {
+            return None;
+        }
+        catch_any(|| Option::<Sub>::from(CofactorGroup::into_subgroup(p))).ok().flatten()
+    }
 
     fn pool(spec: &Spec<C>, rng: &mut Rng, mode: Mode, torsion: &[Pt<E>]) -> Vec<O> {
         let mut v = vec![];
@@ -1506,8 +1515,7 @@ pub mod jub {
             let mut v: Vec<Op<E>> = vec![];
             op!(v, TE, "neg", obs_e, -p);
             op!(v, TA, "neg", obs_a, -pa);
-            if o.in_subgroup {
-                let s = CofactorGroup::into_subgroup(p).unwrap();
+            if let Some(s) = to_sub(o.in_subgroup, p) {
                 op!(v, TS, "neg", obs_s, -s);
                 op!(v, TS, "neg(&)", obs_s, -&s);
             }
@@ -1516,8 +1524,7 @@ pub mod jub {
             let mut v: Vec<Op<E>> = vec![];
             op!(v, TE, "double", obs_e, p.double());
             op!(v, TE, "double(Group)", obs_e, Group::double(&p));
-            if o.in_subgroup {
-                let s = CofactorGroup::into_subgroup(p).unwrap();
+            if let Some(s) = to_sub(o.in_subgroup, p) {
                 op!(v, TS, "double", obs_s, s.double());
             }
             cx.ops(v, &c.double(&o.r), o.cls, key, &inp);
@@ -1534,7 +1541,9 @@ pub mod jub {
             op!(v, TA, "from_raw_unchecked(get_u,get_v)", obs_a, Aff::from_raw_unchecked(pa.get_u(), pa.get_v()));
             if o.in_subgroup {
                 op!(v, TS, "from_raw_unchecked", obs_s, Sub::from_raw_unchecked(pa.get_u(), pa.get_v()));
-                op!(v, TS, "into(extended)", obs_e, Ext::from(CofactorGroup::into_subgroup(p).unwrap()));
+                if let Some(s) = to_sub(true, p) {
+                    op!(v, TS, "into(extended)", obs_e, Ext::from(s));
+                }
             }
             cx.ops(v, &Some(o.r.clone()), o.cls, key, &inp);
         }
@@ -1554,7 +1563,7 @@ pub mod jub {
                 let key = hash_of(&(&a.r, &b.r));
                 let inp = || json!({"p": hexp(spec, &a.r), "q": hexp(spec, &b.r), "p_class": a.cls, "q_class": b.cls});
                 let both_sub = a.in_subgroup && b.in_subgroup;
-                let subs = both_sub.then(|| (CofactorGroup::into_subgroup(p).unwrap(), CofactorGroup::into_subgroup(q).unwrap()));
+                let subs = to_sub(both_sub, p).zip(to_sub(both_sub, q));
 
                 let mut v: Vec<Op<E>> = vec![];
                 op!(v, TE, "add(E,E)", obs_e, p + q);
@@ -1575,8 +1584,7 @@ pub mod jub {
                 op!(v, TA, "add(A,A)", obs_e, pa + qa);
                 op!(v, TA, "add(&A,&A)", obs_e, &pa + &qa);
                 op!(v, TE, "sum([P,Q])", obs_e, [p, q].iter().sum::<Ext>());
-                if b.in_subgroup {
-                    let t = CofactorGroup::into_subgroup(q).unwrap();
+                if let Some(t) = to_sub(b.in_subgroup, q) {
                     op!(v, TE, "add(E,Subgroup)", obs_e, p + t);
                     op!(v, TE, "add(&E,&Subgroup)", obs_e, &p + &t);
                     op!(v, TE, "add_assign(Subgroup)", obs_e, { let mut x = p; x += t; x });
@@ -1605,8 +1613,7 @@ pub mod jub {
                 op!(v, TE, "sub_assign(A)", obs_e, { let mut t = p; t -= qa; t });
                 op!(v, TA, "sub(A,A)", obs_e, pa - qa);
                 op!(v, TA, "sub(&A,&A)", obs_e, &pa - &qa);
-                if b.in_subgroup {
-                    let t = CofactorGroup::into_subgroup(q).unwrap();
+                if let Some(t) = to_sub(b.in_subgroup, q) {
                     op!(v, TE, "sub(E,Subgroup)", obs_e, p - t);
                     op!(v, TE, "sub_assign(Subgroup)", obs_e, { let mut x = p; x -= t; x });
                 }
@@ -1668,8 +1675,7 @@ pub mod jub {
                 op!(v, TAN, "mul(&N,&S)", obs_e, &pa.to_niels() * &s);
                 op!(v, TEN, "mul(N,S)", obs_e, p.to_niels() * s);
                 op!(v, TEN, "mul(&N,&S)", obs_e, &p.to_niels() * &s);
-                if o.in_subgroup {
-                    let g = CofactorGroup::into_subgroup(p).unwrap();
+                if let Some(g) = to_sub(o.in_subgroup, p) {
                     op!(v, TS, "mul(S,F)", obs_s, g * s);
                     op!(v, TS, "mul(&S,&F)", obs_s, &g * &s);
                     op!(v, TS, "mul_assign(F)", obs_s, { let mut t = g; t *= s; t });
@@ -1754,8 +1760,8 @@ pub mod jub {
             let p = o.p;
             let lib = catch_any(|| {
                 let mut v = vec![(TE, GroupEncoding::to_bytes(&p).to_vec()), (TA, Aff::from(p).to_bytes().to_vec()), (TA, GroupEncoding::to_bytes(&Aff::from(p)).to_vec())];
-                if o.in_subgroup {
-                    v.push((TS, GroupEncoding::to_bytes(&CofactorGroup::into_subgroup(p).unwrap()).to_vec()));
+                if let Some(s) = to_sub(o.in_subgroup, p) {
+                    v.push((TS, GroupEncoding::to_bytes(&s).to_vec()));
                 }
                 v
             });
@@ -2265,6 +2271,13 @@ pub mod c25519 {
         b.try_into().unwrap()
     }
 
+    fn to_sg(expected_in_subgroup: bool, p: P) -> Option<SG> {
+        if !expected_in_subgroup {
+            return None;
+        }
+        catch_any(|| SG::from_edwards(p.0)).ok().flatten()
+    }
+
     fn pool(cx: &mut Cx<C>, rng: &mut Rng, mode: Mode, torsion: &[Pt<E>]) -> Vec<O> {
         let spec = cx.spec;
         let mut v = vec![];
@@ -2342,16 +2355,14 @@ pub mod c25519 {
             let mut v: Vec<Op<E>> = vec![];
             op!(v, TP, "neg", obs_p, -p);
             op!(v, TP, "neg(&)", obs_p, -&p);
-            if o.in_subgroup {
-                let s = SG::from_edwards(p.0).unwrap();
+            if let Some(s) = to_sg(o.in_subgroup, p) {
                 op!(v, TS, "neg", obs_s, -s);
                 op!(v, TS, "neg(&)", obs_s, -&s);
             }
             cx.ops(v, &Some(c.neg(&o.r)), o.cls, key, &inp);
             let mut v: Vec<Op<E>> = vec![];
             op!(v, TP, "double", obs_p, p.double());
-            if o.in_subgroup {
-                let s = SG::from_edwards(p.0).unwrap();
+            if let Some(s) = to_sg(o.in_subgroup, p) {
                 op!(v, TS, "double", obs_s, s.double());
             }
             cx.ops(v, &c.double(&o.r), o.cls, key, &inp);
@@ -2369,8 +2380,7 @@ pub mod c25519 {
                 Some(a) => Ok(obs_p(&P(a.to_edwards()))),
                 None => Err("None".into()),
             }));
-            if o.in_subgroup {
-                let s = SG::from_edwards(p.0).unwrap();
+            if let Some(s) = to_sg(o.in_subgroup, p) {
                 op!(v, TS, "into(Curve25519)", obs_p, P::from(s));
                 op!(v, TS, "into(&Curve25519)", obs_p, P::from(&s));
                 op!(v, TS, "inner", obs_p, P(*s.inner()));
@@ -2395,7 +2405,7 @@ pub mod c25519 {
                 cx.stat(format!("pair|{}|{}", FAM, cls));
                 let key = hash_of(&(&a.r, &b.r));
                 let inp = || json!({"p": hexp(spec, &a.r), "q": hexp(spec, &b.r), "p_class": a.cls, "q_class": b.cls});
-                let subs = (a.in_subgroup && b.in_subgroup).then(|| (SG::from_edwards(p.0).unwrap(), SG::from_edwards(q.0).unwrap()));
+                let subs = to_sg(a.in_subgroup && b.in_subgroup, p).zip(to_sg(a.in_subgroup && b.in_subgroup, q));
                 let mut v: Vec<Op<E>> = vec![];
                 op!(v, TP, "add(P,P)", obs_p, p + q);
                 op!(v, TP, "add(P,&P)", obs_p, p + &q);
@@ -2473,8 +2483,7 @@ pub mod c25519 {
                 op!(v, TP, "mul(S,&P)", obs_p, s * &p);
                 op!(v, TP, "mul_assign(S)", obs_p, { let mut t = p; t *= s; t });
                 op!(v, TP, "mul_assign(&S)", obs_p, { let mut t = p; t *= &s; t });
-                if o.in_subgroup {
-                    let g = SG::from_edwards(p.0).unwrap();
+                if let Some(g) = to_sg(o.in_subgroup, p) {
                     op!(v, TS, "mul(G,S)", obs_s, g * s);
                     op!(v, TS, "mul(S,G)", obs_s, s * g);
                     op!(v, TS, "mul_assign(S)", obs_s, { let mut t = g; t *= s; t });
@@ -2610,7 +2619,21 @@ impl Shard {
     }
 }
 
+/// A panic that escapes the per-call guards (library panic inside operand construction or a
+/// harness bug) must not take the process down: the shard is reported inconclusive.
 fn run_shard(ctx: &Ctx, specs: &Specs, base: &Report, s: &Shard, mode: Mode) -> ShardOut {
+    match catch_any(|| run_shard_inner(ctx, specs, base, s, mode)) {
+        Ok(o) => o,
+        Err(pi) => {
+            let mut rep = base.fork();
+            rep.count("shards.aborted");
+            rep.inconclusive(&format!("shard {} aborted by an unguarded panic: {} at {}", s.label(), pi.message, pi.location));
+            ShardOut { rep, stats: BTreeMap::new() }
+        }
+    }
+}
+
+fn run_shard_inner(ctx: &Ctx, specs: &Specs, base: &Report, s: &Shard, mode: Mode) -> ShardOut {
     let label = s.label();
     match (s.fam, s.dec) {
         ("bls12_381.G1", false) => bls_g1::run_ops(ctx, &specs.g1, base, &label, mode),
